@@ -354,12 +354,16 @@ def initialWindowSize (mtu : Nat) : Except Fail Nat :=
 
 def clamp (x lo hi : Nat) : Nat := if x < lo then lo else if x > hi then hi else x
 
-/-- `Session::setup` (fixed tree: both windows restart from scratch) -/
-def Session.setup (s : Session) (version mtu windowSize : Nat) : Session :=
+/-- `Session::setup` (fixed tree: both windows restart from scratch; at the initiator the peer's
+handshake response counts as the received, not yet acknowledged segment number 0 - it takes one
+slot of the receive window and starts the acknowledgement timer: `level = window_size - 1`
+(`saturating_sub`), `ack_level = 1`, `ack_seq = 0`, `received_at = Instant::now()`) -/
+def Session.setup (s : Session) (version mtu windowSize now : Nat) : Session :=
   { s with
     established := true, version := version, mtu := mtu, windowSize := windowSize,
     handshakePending := !s.initiator,
-    recv := { level := windowSize, ackSeq := if s.initiator then 0 else 255 },
+    recv := if s.initiator then { level := windowSize - 1, ackLevel := 1, ackSeq := 0, receivedAt := some now }
+            else { level := windowSize, ackSeq := 255 },
     send := { windowSize := windowSize, level := windowSize } }
 
 /-- the MTU selection of `process_rx_handshake_req` (before the GATT header is taken off) -/
@@ -371,8 +375,8 @@ def Session.selectMtu (s : Session) (gattMtu : Option Nat) (reqMtu : Nat) : Nat 
   else clamp reqMtu minMtu maxMtu
 
 /-- `Session::process_rx_handshake_req` -/
-def Session.processRxHandshakeReq (s : Session) (gattMtu : Option Nat) (h : Hdr) (payload : List Nat) :
-    Except Fail Session :=
+def Session.processRxHandshakeReq (s : Session) (gattMtu : Option Nat) (h : Hdr) (payload : List Nat)
+    (now : Nat) : Except Fail Session :=
   if !checkHandshakeIntegrity h then .error .invalidData
   else
     match decodeReq payload with
@@ -388,10 +392,11 @@ def Session.processRxHandshakeReq (s : Session) (gattMtu : Option Nat) (h : Hdr)
         | .ok iw =>
           let ws := min req.windowSize iw
           if ws = 0 then .error .invalidData      -- fix: a zero window cannot carry the response
-          else .ok (s.setup version mtu ws)
+          else .ok (s.setup version mtu ws now)
 
 /-- `Session::process_rx_handshake_resp` -/
-def Session.processRxHandshakeResp (s : Session) (h : Hdr) (payload : List Nat) : Except Fail Session :=
+def Session.processRxHandshakeResp (s : Session) (h : Hdr) (payload : List Nat) (now : Nat) :
+    Except Fail Session :=
   if !checkHandshakeIntegrity h then .error .invalidData
   else
     match decodeResp payload with
@@ -400,7 +405,7 @@ def Session.processRxHandshakeResp (s : Session) (h : Hdr) (payload : List Nat) 
       -- fix: the peer's choice is validated
       if resp.mtu < minMtu - gattHeaderSize || resp.mtu > maxMtu - gattHeaderSize || resp.windowSize = 0 then
         .error .invalidData
-      else .ok (s.setup resp.version resp.mtu resp.windowSize)
+      else .ok (s.setup resp.version resp.mtu resp.windowSize now)
 
 /-- `Session::process_rx_data` (fixed tree: the acknowledgement is validated before anything is stored) -/
 def Session.processRxData (s : Session) (h : Hdr) (payload : List Nat) (now : Nat) : Except Fail Session :=
@@ -418,8 +423,8 @@ def Session.processRxData (s : Session) (h : Hdr) (payload : List Nat) (now : Na
 def Session.processRxSeg (s : Session) (gattMtu : Option Nat) (h : Hdr) (payload : List Nat) (now : Nat) :
     Except Fail Session :=
   if h.hs then
-    if s.initiator then s.processRxHandshakeResp h payload
-    else s.processRxHandshakeReq gattMtu h payload
+    if s.initiator then s.processRxHandshakeResp h payload now
+    else s.processRxHandshakeReq gattMtu h payload now
   else s.processRxData h payload now
 
 /-- `Session::process_rx` on raw bytes -/
